@@ -5,9 +5,19 @@ import sys
 
 
 class Facts:
-    def __init__(self, path):
+    def __init__(self, path, reference=None):
         with open(path) as fh:
-            self.raw = json.load(fh)
+            text = fh.read()
+        self.raw = json.loads(text)
+        self.aliases = {}
+        if reference is not None:
+            from .inline import rename_aliases, apply_aliases
+            self.aliases = rename_aliases(self.raw, reference)
+            perms = self.raw.pop("_param_perms", {})
+            if self.aliases:
+                self.raw = json.loads(apply_aliases(text, self.aliases))
+                from .inline import restore_param_order
+                restore_param_order(self.raw, perms)
         self.crate = self.raw["crate"]
         self.opts = self.raw["opts"]
         self.fns = {}
